@@ -436,6 +436,18 @@ def plan_for(prop, tier, seed):
         P["nontrivial_keys"] = ["fresh_compare"]
         P["rule"] = ("two or three overlapping runs on one graph, interleaved in one task or each on its own OS thread (turn-taking); "
                      "non-trivial = runs re-executed alone on a fresh graph and compared event by event")
+    elif prop == "SMOKE":
+        # not a property: a cross-section of every family, any failed predicate reported (used by lib/mutate.py)
+        P["families"] = [fam("runs_exh", shards=4, sample=60), fam("runs_rand", shards=2), fam("wide", shards=2),
+                         fam("stream_exh", shards=2, sample=12), fam("stream_rand", shards=1),
+                         fam("multi_seq", shards=2, count=600), fam("multi_overlap", shards=1, count=400), fam("multi_threads", shards=1, count=300),
+                         fam("budget_exh", shards=2, sample=24), fam("scale", shards=2),
+                         fam("builder_exh", shards=2, sample=20), fam("builder_rand", shards=1), fam("builder_calls", shards=2, sample=8),
+                         fam("builder_big", shards=1), fam("dense", shards=1),
+                         fam("runs_rand", shards=1, plain=True, tag="p"), fam("stream_rand", shards=1, plain=True, tag="p"),
+                         fam("builder_rand", shards=1, plain=True, tag="p")]
+        P["report"] = {"*"}
+        P["rule"] = "smoke"
     else:
         raise SystemExit(f"unknown property {prop}")
     # ---- the build of fn_graph without `interruptible`
@@ -465,7 +477,7 @@ def plan_for(prop, tier, seed):
                           fam("multi_threads", shards=1, count=2000 if T else 300, plain=True, tag="p")]
     P["exhaustive"] = bool(T and all(f.get("sample", 1) == 1 for f in P["families"] if f["family"].endswith("_exh")))
     # hook-level conformance (impl -> design model): a rotating selection of option sets per property
-    off = int(prop[1:]) * 7 + seed
+    off = (int(prop[1:]) if prop[1:].isdigit() else 0) * 7 + seed
     nrun = 24 if T else 5
     if prop in ("C01", "C02", "C03", "C04", "C06", "C07", "C08", "C09", "C10"):
         P["impl"] = [dict(kind="run", index=off + 13 * i, sample=1 if T else 2) for i in range(nrun)]
